@@ -10,6 +10,7 @@ import (
 
 	"github.com/gogpu/naga"
 	"github.com/gogpu/naga/glsl"
+	"github.com/gogpu/naga/hlsl"
 	"github.com/gogpu/naga/ir"
 	"github.com/gogpu/naga/msl"
 )
@@ -46,6 +47,11 @@ func main() {
 		o.FakeMissingBindings = true
 		o.PipelineConstants = pc
 		s, _, err := msl.Compile(m, o)
+		fmt.Println(s, err)
+	case "hlsl":
+		o := hlsl.DefaultOptions()
+		o.FakeMissingBindings = true
+		s, _, err := hlsl.Compile(m, o)
 		fmt.Println(s, err)
 	case "glsl":
 		o := glsl.DefaultOptions()
